@@ -229,6 +229,15 @@ def check_c13(multi, res):
                 exp.append((2, "s", a))
                 if key == "ins":
                     sold = dec(dd[3])
+                    # sold % of the lot within the window: sum over the fractions shown (event date in the window) taken from this
+                    # lot, each amount / lot amount at 31 digits -- independent of ComputedData; lots dated outside the window have none
+                    want_sold = Decimal(0)
+                    for f_ in d["fractions"]:
+                        if f_["lot"] == x["row"]:
+                            want_sold = add31(want_sold, div31(units(f_["amt"]), units(x["crypto_in"])))
+                    if want_sold != sold:
+                        bad(f"{io.name} row {rr + 1}: sold % of lot {x['row']} computed as {sold}, the fractions shown that consume it add up to {want_sold}",
+                            "sold-pct")
                     if abs(sold) < Decimal("5e-14"):
                         if not (io.blank(rr, 0) or num_eq(cells(0), sold)):
                             bad(f"{io.name} row {rr + 1}: sold % shows {cells(0)!r} for a lot with nothing sold", "sold-pct")
@@ -381,6 +390,16 @@ def dates_monotone(c):
     """local dates do not go backwards along the time-sorted history (otherwise finding F9 applies)"""
     days = [hist.local_day(r["ts"]) for r in tsorted(hist_rows(c))]
     return all(x <= y for x, y in zip(days, days[1:]))
+
+
+def div31(a, b):
+    from decimal import Context, ROUND_HALF_EVEN
+    return Context(prec=31, rounding=ROUND_HALF_EVEN).divide(a, b)
+
+
+def add31(a, b):
+    from decimal import Context, ROUND_HALF_EVEN
+    return Context(prec=31, rounding=ROUND_HALF_EVEN).add(a, b)
 
 
 def mul31(a, b):
@@ -543,3 +562,40 @@ def twin(kind, x, y):
             "outs": ("ts", "exch", "holder", "type", "spot", "crypto_out_no_fee", "crypto_fee", "uid"),
             "intras": ("ts", "from_exch", "from_holder", "to_exch", "to_holder", "crypto_sent", "crypto_received", "uid")}[kind]
     return all(x.get(k) == y.get(k) for k in keys)
+
+
+# ----------------------------------------------------------------------------- verdicts per run
+def classify_error(multi, res):
+    """tags of a generator failure on a valid input"""
+    tags = {"generator-error", res["err"]}
+    msg = res.get("msg", "")
+    if res["err"] == "IndexError":
+        holders = max((len({b[1] for b in d["balances"]}) for d in (res.get("computed") or {}).values()), default=0)
+        if holders > 21:
+            tags.add("tax-sheet-overflow-holders")
+    if res["err"] == "KeyError" and "1970" in msg and len(multi["sched"]) == 1 and multi["sched"][0][0] != 1970:
+        tags.add("single-schedule-not-1970")
+    if res["err"] == "KeyError" and "_AssetAndYear" in msg:
+        tags.add("summary-link-keyerror")
+    return tags
+
+
+def judge_c13(multi, res):
+    """-> list of (text, tags) for one run of the implementation ([] = the report satisfies C13), None = input rejected
+    before any report was generated"""
+    if res.get("err"):
+        if res.get("stage") != "computed":
+            return None
+        return [(f"the input is valid (compute_tax succeeds) but rp2_full_report raised {res['err']}: {res.get('msg', '')[:160]}; no report is written",
+                 classify_error(multi, res))]
+    return check_c13(multi, res)
+
+
+def judge_c19(multi, res):
+    """-> (violations [(text, tags)], links dereferenced, hidden subjects) or None when there is no report to judge"""
+    if res.get("err"):
+        if res.get("stage") == "computed" and res["err"] == "KeyError" and "_AssetAndYear" in res.get("msg", ""):
+            return ([(f"building the link of a Summary line raised KeyError {res.get('msg', '')[:120]}: the year has a summary line but none of its "
+                      "gain/loss rows is shown (from-date inside the year); no report is written", {"summary-link-keyerror"})], 0, 0)
+        return None
+    return check_c19(multi, res)
